@@ -44,6 +44,10 @@ pub fn gsub_segment() -> BoxedStrategy<String> {
 pub fn galgorithm() -> BoxedStrategy<String> {
     prop_oneof![
         3 => select(&["sha1", "SHA256", "md5", "Sha512", "a", "B", "a:b", ":", "", "é", "É", "ǅ", "sha-1", "x y"][..]).prop_map(str::to_string),
+        // names of which one is a proper prefix of another, continued by a character below ':'
+        2 => select(&["sha3", "sha3-256", "SHA3-512", "a1", "a-", "a.b", "a+", "a ", "sha", "sha2"][..]).prop_map(str::to_string),
+        // long names (beyond the inline capacity of the small-string type) in scripts with case
+        1 => select(&["ΑΒΓΔΕΖΗΘΙΚΛΜΣ", "αβγδεζηθικλμσ", "ΟΔΟΣ", "ÆB", "ÆSHA", "blake2b-512-personalised-XYZ", "SHAKE256-LONG-DIGEST-NAME-0001"][..]).prop_map(str::to_string),
         2 => gtext(0).prop_map(|s| s.chars().map(|c| if c == ',' { ';' } else { c }).collect::<String>()),
     ]
     .boxed()
@@ -82,11 +86,21 @@ pub fn gtuple(typed: bool) -> BoxedStrategy<Tuple> {
         prop_oneof![12 => proptest::collection::vec(gsegment(), 0..=3), 1 => proptest::collection::vec(gsegment(), 4..=8)],
         gtext1(),
         proptest::option::weighted(0.6, gtext1()),
-        prop_oneof![12 => proptest::collection::vec((gkey(), gtext1()), 0..=3), 1 => proptest::collection::vec((gkey(), gtext1()), 4..=12)],
+        prop_oneof![
+            24 => proptest::collection::vec((gkey(), gtext1()), 0..=3),
+            2 => proptest::collection::vec((gkey(), gtext1()), 4..=12),
+            // more than 16 / 32 qualifiers
+            1 => (17usize..=40, gtext1()).prop_map(|(n, v)| (0..n).map(|i| (format!("{}{i:02}", if i % 3 == 0 { "Q" } else { "q" }), v.clone())).collect::<Vec<_>>()),
+        ],
         prop_oneof![
             3 => Just(Vec::new()),
             4 => proptest::collection::vec((galgorithm(), proptest::collection::vec(any::<u8>(), 0..=4)), 1..=3),
             1 => proptest::collection::vec((galgorithm(), proptest::collection::vec(any::<u8>(), 0..=32)), 1..=7),
+            // long digests (more than 128 / 256 hex digits) and more than 64 algorithms
+            1 => prop_oneof![
+                (galgorithm(), proptest::collection::vec(any::<u8>(), 120..=300)).prop_map(|e| vec![e]),
+                (65usize..=80, any::<u8>()).prop_map(|(n, b)| (0..n).rev().map(|i| (format!("h{i:02}"), vec![b, i as u8])).collect::<Vec<_>>()),
+            ],
         ],
         proptest::collection::vec(gsub_segment(), 0..=3),
     )
